@@ -38,7 +38,14 @@ type Program struct {
 	StructCanon map[token.Pos]string
 }
 
-const repoRoot = "/repo"
+// repoRoot is the tree under verification: /repo for every registered command; GOVC_REPO points the developer
+// tooling (contract development on a scratch worktree) somewhere else.
+var repoRoot = func() string {
+	if r := os.Getenv("GOVC_REPO"); r != "" {
+		return r
+	}
+	return "/repo"
+}()
 
 func goEnv() []string {
 	env := os.Environ()
